@@ -12,3 +12,5 @@ def check(rep, tier):
     rep.run(guards.run, rep, tier)
     rep.run(core_rules.run, rep, tier, parts=("defjvp",))
     rep.run(rules_scalar.run, rep, tier, adjoint=True)     # forward rules at ties / kinks: the factor equals the reverse rule's
+    from contracts import rules_numeric as _rn
+    rep.run(_rn.run_near_tie, rep)
